@@ -92,4 +92,22 @@ theorem C01_two_nodes_can (pad : Pad) (es : List Event) (hwf : ∀ e ∈ es, e.W
     ∀ e ∈ es, decode e.kind (encode pad e) = .ok e :=
   Ross.two_nodes_can pad es hwf nodeA hA hlog rs hrs b handlers s hs
 
+/-- **both nodes in the model (serial port):** node `a` sends every event over a serial port that may accept any positive
+number of bytes per write and interrupt any write, and whose flushes succeed; node `b` reads a port that delivers exactly
+the bytes `a`'s port accepted (`bytesOf`), timing out any number of times between link frames (`segs`: gaps and whole
+link frames of at most 255 bytes; which frames they are is *derived* from the byte stream, `wireOf_inj`) -/
+theorem C01_two_nodes_serial (pad : Pad) (es : List Event) (hwf : ∀ e ∈ es, e.WF ∧ (encode pad e).data.length ≤ 28672)
+    (nodeA : Proto) (hA : ∀ h ∈ nodeA.handlers, h.2.sends = []) (hlog : nodeA.log = [])
+    (rs : List IoResp) (fls : List FlushResp) (hrs : ∀ r ∈ rs, r.isFault = false) (hfl : ∀ f ∈ fls, f = .ok)
+    (b : UInt16) (handlers : List (Nat × Handler)) (segs : List Seg)
+    (hn : ∀ sg ∈ segs, sg.isNoise = false) (hok : ∀ sg ∈ segs, sg.Ok)
+    (hs : bytesOf (segs.flatMap Seg.items) =
+      (serialSendMany ((txOf (nodeA.sendAll (es.map (encode pad))).log).map usartBodies) rs fls).1) :
+    let rx : Proto := ⟨b, handlers, (serialPolls LinkSt.init (segs.flatMap Seg.items)).map toRx, [], []⟩
+    callsOf rx.tickAll.log =
+      (es.filter (routed nodeA.addr)).flatMap (fun e =>
+        (recipients handlers (e.receiver == b || e.receiver == BROADCAST)).map fun h => (h.token, encode pad e)) ∧
+    ∀ e ∈ es, decode e.kind (encode pad e) = .ok e :=
+  Ross.two_nodes_serial pad es hwf nodeA hA hlog rs fls hrs hfl b handlers segs hn hok hs
+
 end Ross.Props
